@@ -133,6 +133,11 @@ def check(run, only=None):
     else:
         r = common.run_tlc("C20", "C20_thorough" if thorough else "C20", env={"VERIF_SEED": run.seed}, timeout=3000, heap="12g")
         vecs = r["lines"] + named_cases()
+        # the source reaches the parser through a loader: two thirds of the cases go through the library's own MemoryLoader
+        # and FilesystemLoader instead of the harness's recording loader (a loader must hand the bytes over unchanged)
+        for n, v in enumerate(vecs):
+            if v.get("k") == "parsepos" or (v.get("k") == "render" and "srcs" in v):
+                v["loader"] = ("", "memory", "fs")[n % 3]
     send = [{k: x for k, x in v.items() if k != "exp"} for v in vecs]
     obs, hooks = common.run_pool(send, deadline_ms=4000)
     run.hooks = hooks
